@@ -51,6 +51,10 @@ def block_natives(state):
         st.top = [F(it.ctx.var(it.fresh("t"))) for _ in range(16)]
         st.next = [None] * 16
         it.info.setdefault("tops", []).append(st.top[0])
+        if state["children"] > MAX_ITER + 1:
+            # hard bound on the unrolling (reached only if the executor keeps iterating on values
+            # other than 1): the path is cut here and not counted
+            raise mirsym.Panic("loop unrolling bound", kind="infeasible")
         if state["children"] > MAX_ITER:
             # bound: after MAX_ITER body executions the loop is cut (the value on top is not 1)
             it.assume(it.ctx.value(st.top[0].l) != 1)
@@ -188,7 +192,13 @@ def check_loop(interp, meta, V, cov):
             continue
         # n >= 1 body executions: entered with 1, repeated while 1
         ok = holds(res, z3.And([cond == 1] + [t == 1 for t in tops[:n - 1]]))
-        V.add(f"{tag}: {n} iteration(s) only if the condition was 1 before each", "discharged" if ok else "inconclusive")
+        if ok:
+            V.add(f"{tag}: {n} iteration(s) only if the condition was 1 before each", "discharged")
+        else:
+            vals = values_of(res, [z3.Not(z3.And([cond == 1] + [t == 1 for t in tops[:n - 1]]))])
+            if vals is None or not replay_loop_sequence(vals, V, f"{tag}:iterations", f"body executed {n} time(s) with condition values {vals}"):
+                pass
+            continue
         last = tops[n - 1]
         if kind == "ok":
             if holds(res, last == 0):
@@ -205,9 +215,68 @@ def check_loop(interp, meta, V, cov):
         extra = []
         if len(item) > 3:
             extra = [item[3] != 0, item[3] != 1]
-        m = model_of(res, extra)
-        cov["candidates"].append((pi, text, m))
+        vals = values_of(res, extra)
+        cov["candidates"].append((pi, text, vals))
     return paths
+
+
+def native_run(jobs):
+    binp = build_engine("replay", release=True)
+    d = os.path.join(WORK, "replay")
+    os.makedirs(d, exist_ok=True)
+    jf, of = os.path.join(d, "c06b.in.json"), os.path.join(d, "c06b.out.json")
+    json.dump({"jobs": jobs}, open(jf, "w"))
+    run([binp, jf, of], timeout=600)
+    return json.load(open(of))["results"]
+
+
+def loop_reference(seq):
+    """documented semantics for the successive condition values seq[0] (at entry), seq[1] (after the
+    first iteration) ...: 'ok' with the number of iterations, or 'error'"""
+    it = 0
+    for v in seq:
+        if v == 1:
+            it += 1
+            continue
+        return ("ok", it) if v == 0 else ("error", it)
+    return ("running", it)
+
+
+def replay_loop_sequence(seq, V, name, text):
+    """run `while.true` natively with an (empty-effect) body so that the successive condition values
+    are exactly seq, and compare with the documented semantics"""
+    seq = list(seq)
+    ref = loop_reference(seq)
+    if ref[0] == "running":
+        seq.append(0)
+        ref = loop_reference(seq)
+    src = "begin " + " ".join(f"push.{v}" for v in reversed(seq)) + " while.true push.0 drop end end"
+    nat = native_run([{"kind": "exec_masm", "source": src, "stack": [], "max_cycles": 4096}])[0]
+    got = "ok" if nat["status"] == "ok" else "error"
+    rep = dict(kind="exec_masm", property=PROP, source=src, native=nat, reference=ref, solver_path=text, max_cycles=4096)
+    path = save_replay(PROP, re.sub(r"[^A-Za-z0-9_]", "_", name)[:50], rep)
+    if got != ref[0]:
+        V.violation(name, path, f"{text}: natively `{src}` ends {got} ({nat.get('error', nat.get('stack', ''))!s:.80}) but the documented semantics give {ref[0]}",
+                    key="loop:" + ("accepts-non-binary" if ref[0] == "error" else "rejects-valid"))
+        return True
+    V.add(name, "inconclusive", detail=f"{text}; native run of `{src}` agrees with the reference ({got}) - solver path did not reproduce")
+    return False
+
+
+def values_of(res, extra=()):
+    """concrete (cond, tops...) of a path from a solver model"""
+    s = z3.Solver()
+    s.add(res.ctx.side)
+    s.add(res.pc)
+    s.add(list(extra))
+    if s.check() != z3.sat:
+        return None
+    m = s.model()
+    ctx = res.ctx
+    vals = [m.eval(ctx.value(res.info["cond"].l), model_completion=True).as_long()]
+    for t in res.info.get("tops", []):
+        vals.append(m.eval(ctx.value(t.l), model_completion=True).as_long())
+    return vals
 
 
 def native_loop_replay(V, cov):
@@ -216,12 +285,12 @@ def native_loop_replay(V, cov):
     d = os.path.join(WORK, "replay")
     os.makedirs(d, exist_ok=True)
     jf, of = os.path.join(d, "c06.in.json"), os.path.join(d, "c06.out.json")
-    jobs = [{"kind": "exec_masm", "source": "begin push.1 while.true push.2 end end", "stack": []},
-            {"kind": "exec_masm", "source": "begin push.1 while.true push.0 end end", "stack": []},
-            {"kind": "exec_masm", "source": "begin push.2 while.true push.0 end end", "stack": []},
-            {"kind": "exec_masm", "source": "begin push.2 if.true push.3 else push.4 end end", "stack": []}]
+    jobs = [{"kind": "exec_masm", "source": "begin push.0 push.2 push.1 while.true push.0 drop end end", "stack": [], "max_cycles": 4096},
+            {"kind": "exec_masm", "source": "begin push.1 while.true push.0 end end", "stack": [], "max_cycles": 4096},
+            {"kind": "exec_masm", "source": "begin push.2 while.true push.0 end end", "stack": [], "max_cycles": 4096},
+            {"kind": "exec_masm", "source": "begin push.2 if.true push.3 else push.4 end end", "stack": [], "max_cycles": 4096}]
     json.dump({"jobs": jobs}, open(jf, "w"))
-    run([binp, jf, of])
+    run([binp, jf, of], timeout=600)
     return json.load(open(of))["results"], jobs
 
 
@@ -238,23 +307,19 @@ def main():
         V.add("block-executors", "inconclusive", detail=f"MIR construct outside the interpreter's subset: {e}")
     nat, jobs = native_loop_replay(V, cov)
     cov["native"] = len(nat)
+    if nat[0]["status"] == "ok":
+        path = save_replay(PROP, "loop_fixed_program", dict(kind="exec_masm", source=jobs[0]["source"], native=nat[0]))
+        V.violation("native: non-binary value after a loop iteration", path, f"`{jobs[0]['source']}` executes successfully", key="loop:accepts-non-binary")
     # native sanity of the semantics the solver side relies on
     V.add("native: binary loop exit succeeds", "discharged" if nat[1]["status"] == "ok" else "inconclusive", detail=str(nat[1])[:100])
     V.add("native: non-binary loop entry fails", "discharged" if nat[2]["status"] == "error" else "inconclusive", detail=str(nat[2])[:100])
     V.add("native: non-binary if condition fails", "discharged" if nat[3]["status"] == "error" else "inconclusive", detail=str(nat[3])[:100])
-    if cov["candidates"]:
-        # the solver's paths: loop exit with a non-binary value.  Replay: `push.1 while.true push.2 end`
-        texts = sorted({t for _, t, _ in cov["candidates"]})
-        rep = dict(kind="exec_masm", property=PROP, source=jobs[0]["source"], native=nat[0], solver_paths=texts,
-                   models=[m for _, _, m in cov["candidates"]][:3])
-        path = save_replay(PROP, "loop_exit", rep)
-        if nat[0]["status"] == "ok":
-            V.violation("loop:exit", path, f"{texts[0]} ({len(cov['candidates'])} solver paths); natively `{jobs[0]['source']}` executes successfully (stack {nat[0].get('stack', [])[:2]})",
-                        key="loop:exit-with-non-binary-value")
-        else:
-            V.add("loop:exit", "inconclusive", detail=f"solver paths {texts[:2]} did not reproduce natively: {nat[0]}")
-    else:
-        V.add("native: non-binary value after a loop iteration fails", "discharged" if nat[0]["status"] == "error" else "inconclusive", detail=str(nat[0])[:100])
+    done = False
+    for pi, text, vals in cov["candidates"]:
+        if vals is None or done:
+            continue
+        done = replay_loop_sequence(vals, V, f"loop#p{pi}:exit", text)
+    V.add("native: non-binary value after a loop iteration fails", "discharged" if nat[0]["status"] == "error" else "inconclusive", detail=str(nat[0])[:100])
     c = V.counts()
     coverage = dict(
         states=cov["paths"], transitions=c.get("discharged", 0), traces_validated_against_impl=cov["native"],
